@@ -1,3 +1,63 @@
+(* C09 — closing and collecting modules never endangers live ones.
+   Only statements, `exact <lemma>` and Print Assumptions live here. Model: coq/Engine/Lifetime.v (heap graph with
+   visible Go pointers and raw references; close / drop / gc), proofs: coq/Proofs/LifetimeP.v.
+
+   `dangling s i`: i is a live instance and some raw reference (table slot, funcref global, code address of a
+   function record) visibly reachable from it points to a collected object.
+   `tracked s o`: every operation except a hand-over by parameter/result places references structurally (own or
+   imported functions into own holders or into shared tables the instance is involved in, copies between the
+   holders of one instance, element segments); a hand-over is tracked only when the receiver imports a function
+   of the sender (or is the sender). *)
+From Coq Require Import List ZArith Bool.
 From Verif Require Import Engine.Lifetime Proofs.LifetimeP.
-Theorem C09_placeholder : init true = init true. Proof. exact placeholder. Qed.
-Print Assumptions C09_placeholder.
+Import ListNotations.
+
+(* For ALL operation sequences (instantiate, compile, set/copy/pass references, calls in flight, close module /
+   compiled module / cache / runtime, drop host handles, gc, in any order) in which every hand-over is tracked:
+   no live instance reaches a dangling raw reference; every raw reference of an uncollected object points to an
+   uncollected record whose code is still mapped. *)
+Theorem C09_safe_if_tracked : forall c ops, all_tracked (init c) ops = true ->
+  let s := run (init c) ops in
+  (forall i, ~ dangling s i) /\
+  (forall o r, alive s o = true -> In (Some r) (o_slots (getd s o)) ->
+     alive s r = true /\ forall k, In (Some k) (o_slots (getd s r)) -> alive s k = true).
+Proof. exact safe_if_tracked. Qed.
+Print Assumptions C09_safe_if_tracked.
+
+(* purely structural form: histories without any parameter/result hand-over *)
+Theorem C09_safe_without_params : forall c ops, forallb no_param ops = true ->
+  forall i, ~ dangling (run (init c) ops) i.
+Proof. exact safe_without_params. Qed.
+Print Assumptions C09_safe_without_params.
+
+(* F08 (open finding): instantiate B (private table); instantiate P importing a function of B; P.f reaches B's
+   private table through a parameter; close P and its compiled module; drop; gc: B is live and open, its slot
+   still holds the address of P.f, the record is collected and P's executable unmapped. *)
+Theorem C09_private_table_refuted :
+  let s1 := run (init true) f08_setup in
+  let s := run s1 f08_close in
+  deref_ok s1 (slot s1 (holder_of s1 4 0) 0) = true /\
+  inst_ok s 4 = true /\ open s 4 = true /\ holder_ok s 4 0 = true /\ In 4 (host s) /\
+  slot s (holder_of s 4 0) 0 = Some 12 /\ alive s 12 = false /\ alive s 8 = false /\
+  deref_ok s (slot s (holder_of s 4 0) 0) = false /\
+  dangling s 4 /\
+  all_tracked (init true) (f08_setup ++ f08_close) = false /\ forallb closing f08_close = true.
+Proof. exact private_table_refuted. Qed.
+Print Assumptions C09_private_table_refuted.
+
+(* After any tracked history, with a call on instance i in flight: closing the runtime, the cache, compiled modules
+   and instances, dropping handles and collecting — any of them, in any order, any number of times — keeps the
+   invariant, and the in-flight call holds a root: its module engine, instance, compiled module and everything it
+   structurally reaches stay uncollected with intact references. *)
+Theorem C09_close_order_irrelevant : forall c pre i closes,
+  all_tracked (init c) pre = true ->
+  let s0 := run (init c) pre in
+  inst_ok s0 i = true ->
+  forallb closing closes = true ->
+  let s := run s0 (OEnter i :: closes) in
+  (forall j, ~ dangling s j) /\
+  (forall x, sreach s0 (me_of s0 i) x ->
+     alive s x = true /\ forall r, In (Some r) (o_slots (getd s x)) -> alive s r = true) /\
+  alive s i = true.
+Proof. exact close_order_irrelevant. Qed.
+Print Assumptions C09_close_order_irrelevant.
